@@ -294,6 +294,7 @@ theorem modelOp_canon {s : State} (h : Canon s) (op : String) : Canon (modelOp s
   · exact h
   · exact h
   · exact (deliver_quiescent h).1
+  · exact h
   · exact (deliver_quiescent h).1
   · exact h
 
